@@ -69,18 +69,35 @@ def showNSegs (l : List NSeg) : String :=
     | .l s => "L" ++ hexOfStr s
     | .v i => "V" ++ toString i)
 
-def c08Cols : List (String × Lang × Role) :=
-  [("go.pub", .go, .pub), ("go.sub", .go, .sub), ("java.pub", .java, .pub), ("java.sub", .java, .sub),
+def c08Cols : List (String × Lang × Entry) :=
+  [("go.pub", .go, .pub), ("go.sub", .go, .sub), ("go.sube", .go, .subAlt),
+   ("java.pub", .java, .pub), ("java.sub", .java, .sub), ("java.subt", .java, .subAlt),
    ("dart.pub", .dart, .pub), ("dart.sub", .dart, .sub), ("py.pub", .py, .pub),
    ("pyaio.pub", .pyAsyncio, .pub), ("pyaio.sub", .pyAsyncio, .sub),
    ("pytor.pub", .pyTornado, .pub), ("pytor.sub", .pyTornado, .sub)]
 
-def c08Cell (l : Lang) (r : Role) (sc : Scope) (vals : List Str) (delim op : Str) : String :=
-  match normalize sc.name delim op (tmpl l r sc delim), evalTopic l r sc vals delim op with
+/-- which ARGUMENT of the entry point ends up as the i-th format argument: the entry point is
+called with the argument positions as values -/
+def reachIdx (l : Lang) (e : Entry) (vars : List Str) : List Str :=
+  reachVals l e vars ((List.range vars.length).map fun i => (toString i).toList)
+
+def renameVars (perm : List Str) : List NSeg → Option (List NSeg)
+  | [] => some []
+  | .l s :: t => (renameVars perm t).map (NSeg.l s :: ·)
+  | .v i :: t => do
+    let j ← (String.ofList (perm.getD i [])).toNat?
+    let rest ← renameVars perm t
+    pure (.v j :: rest)
+
+/-- one column: the entry point called with the variable arguments `vals`, in prefix order -/
+def c08Cell (l : Lang) (e : Entry) (sc : Scope) (vals : List Str) (delim op : Str) : String :=
+  let args := vals.take sc.vars.length
+  match (normalize sc.name delim op (tmpl l e.role sc delim)).bind (renameVars (reachIdx l e sc.vars)),
+        entryTopic l e sc args delim op with
   | some nf, some topic => showNSegs nf ++ "@" ++ hexOfStr topic
   | _, _ => "B@fail"
 
-/-- `"prefix" __ PrefixToken`: `__` also skips comments, so a first token that begins with `#`,
+/-- `"prefix" __ PrefixToken`: `__` also skips comments, so a first token that begins with `#`
 or `//` is read by the IDL lexer as a comment to the end of the line and the scope does not
 parse (`/*` only opens a comment when a `*/` follows; the harness does not generate that).
 Lexical, not part of the topic model. -/
@@ -106,7 +123,7 @@ def stepTopic (op : String) (args : List String) : Option String :=
       | some vars =>
         if vals.length < vars.length then some "err:parse" else
         let groups := ops.map fun o =>
-          hexOfStr o ++ ":" ++ ";".intercalate (c08Cols.map fun (col, l, r) => col ++ "=" ++ c08Cell l r sc vals delim o)
+          hexOfStr o ++ ":" ++ ";".intercalate (c08Cols.map fun (col, l, e) => col ++ "=" ++ c08Cell l e sc vals delim o)
         some ("ok vars=" ++ hexList vars ++ " " ++ " ".intercalate groups)
     | _, _, _, _, _ => some "err:parse"
   | _, _ => none
